@@ -15,7 +15,8 @@ from __future__ import annotations
 from .. import treecheck
 from ..treeprop import TreeProp
 
-EXITS = ("normal", "raise", "refusal", "fetch_r", "fetch_r+", "fetch_r+_from_r", "fetch_r_from_closed", "close")
+EXITS = ("normal", "raise", "refusal", "fetch_r", "fetch_r+", "fetch_r+_from_r", "fetch_r_from_closed", "fetch_r+_from_r_raise",
+         "fetch_r_from_closed_raise", "close")
 
 
 def cfg(exit_mode, order="asc", policy="hold"):
